@@ -9,7 +9,8 @@ checks, na = [], []
 for p in props:
     pid = p["id"]
     path = os.path.join(here, "vf", "checks", pid.lower() + ".py")
-    if not os.path.exists(path):
+    ready = set(open(os.path.join(here, "tools", "ready.txt")).read().split())
+    if not os.path.exists(path) or pid not in ready:
         na.append({"property_id": pid, "reason": "no check registered yet in this round (runtime-monitoring design in DESIGN.md section 3 is applicable; implementation pending)"})
         continue
     mod = importlib.import_module("vf.checks." + pid.lower())
